@@ -28,6 +28,9 @@ pub enum El {
     Dup(Vec<El>),
     Do(Vec<El>),
     DoStar(Vec<El>),
+    /// counted EXEC.Y loop (the shape of the repository's potentiation example):
+    /// n EXEC.Y ( body 1 INTEGER.- INTEGER.DUP 0 INTEGER.> EXEC.IF ( ) EXEC.POP ) INTEGER.POP
+    YLoop(i32, Vec<El>),
 }
 use El::*;
 
@@ -116,6 +119,14 @@ fn render(v: &[El]) -> Vec<ItemSpec> {
                 out.push(block(a));
                 out.push(ins("CODE.DO*"));
             }
+            YLoop(n, b) => {
+                out.push(ItemSpec::Int(*n));
+                out.push(ins("EXEC.Y"));
+                let mut body = render(b);
+                body.extend(vec![ItemSpec::Int(1), ins("INTEGER.-"), ins("INTEGER.DUP"), ItemSpec::Int(0), ins("INTEGER.>"), ins("EXEC.IF"), ItemSpec::List(vec![]), ins("EXEC.POP")]);
+                out.push(ItemSpec::List(body));
+                out.push(ins("INTEGER.POP"));
+            }
         }
     }
     out
@@ -169,6 +180,21 @@ fn eval(v: &[El], env: &mut Env) {
                 eval(a, env);
             }
             Do(a) | DoStar(a) => eval(a, env),
+            YLoop(n, b) => {
+                // the counter lives on the INTEGER stack while the body runs
+                env.ints.insert(0, *n);
+                loop {
+                    eval(b, env);
+                    if env.budget == 0 {
+                        return;
+                    }
+                    env.ints[0] = env.ints[0].wrapping_sub(1);
+                    if env.ints[0] <= 0 {
+                        break;
+                    }
+                }
+                env.ints.remove(0);
+            }
         }
     }
 }
@@ -176,7 +202,7 @@ fn contains_code_loop(v: &[El]) -> bool {
     v.iter().any(|e| match e {
         CodeLoop(_, _) => true,
         Tick(_) | Pad(_) => false,
-        Sub(b) | ExecLoop(_, b) | VecLoop(_, b) | Dup(b) | Do(b) | DoStar(b) => contains_code_loop(b),
+        Sub(b) | ExecLoop(_, b) | VecLoop(_, b) | Dup(b) | Do(b) | DoStar(b) | YLoop(_, b) => contains_code_loop(b),
         IfExec(_, a, b) | IfCode(_, a, b) | K(a, b) => contains_code_loop(a) || contains_code_loop(b),
         S(a, b, c) => contains_code_loop(a) || contains_code_loop(b) || contains_code_loop(c),
     })
@@ -184,7 +210,7 @@ fn contains_code_loop(v: &[El]) -> bool {
 fn nest_depth(v: &[El]) -> usize {
     v.iter()
         .map(|e| match e {
-            ExecLoop(_, b) | VecLoop(_, b) | CodeLoop(_, b) => 1 + nest_depth(b),
+            ExecLoop(_, b) | VecLoop(_, b) | CodeLoop(_, b) | YLoop(_, b) => 1 + nest_depth(b),
             Tick(_) | Pad(_) => 0,
             Sub(b) | Dup(b) | Do(b) | DoStar(b) => nest_depth(b),
             IfExec(_, a, b) | IfCode(_, a, b) | K(a, b) => nest_depth(a).max(nest_depth(b)),
@@ -213,9 +239,26 @@ fn el_strategy(with_code_loop: bool) -> BoxedStrategy<Vec<El>> {
         if with_code_loop {
             alts.push((2, (0i32..=4, b.clone()).prop_map(|(n, b)| CodeLoop(n, b)).boxed()));
         }
+        // EXEC.Y loop: the body must leave the INTEGER stack as it found it (no INTVECTOR.LOOP inside)
+        alts.push((3, (-1i32..=5, neutral_block()).prop_map(|(n, b)| YLoop(n, b)).boxed()));
         proptest::strategy::Union::new_weighted(alts)
     });
     prop::collection::vec(el, 1..5).boxed()
+}
+
+/// blocks that do not change the INTEGER stack: ticks, padding, sub-lists, EXEC.LOOPs, IF, DUP
+fn neutral_block() -> BoxedStrategy<Vec<El>> {
+    let leaf = prop_oneof![4 => (0i32..1000).prop_map(Tick), 2 => any::<u8>().prop_map(Pad)];
+    let el = leaf.prop_recursive(2, 8, 3, |inner| {
+        let b = prop::collection::vec(inner, 0..3);
+        prop_oneof![
+            (0i32..=3, b.clone()).prop_map(|(n, b)| ExecLoop(n, b)),
+            b.clone().prop_map(Sub),
+            (any::<bool>(), b.clone(), b.clone()).prop_map(|(c, x, y)| IfExec(c, x, y)),
+            b.prop_map(Dup),
+        ]
+    });
+    prop::collection::vec(el, 0..4).boxed()
 }
 
 fn judge_closed(prog: &Vec<El>) -> CaseResult {
@@ -412,6 +455,14 @@ fn parse_back(p: &ItemSpec) -> Option<Vec<El>> {
             ItemSpec::Int(k) if is(v.get(i + 1), "TICK") => {
                 out.push(Tick(*k));
                 i += 2;
+            }
+            ItemSpec::Int(n) if is(v.get(i + 1), "EXEC.Y") && is(v.get(i + 3), "INTEGER.POP") => {
+                let body = match v.get(i + 2)? {
+                    ItemSpec::List(b) if b.len() >= 8 => ItemSpec::List(b[..b.len() - 8].to_vec()),
+                    _ => return None,
+                };
+                out.push(YLoop(*n, parse_back(&body)?));
+                i += 4;
             }
             ItemSpec::Int(n) if is(v.get(i + 1), "INDEX.DEFINE") && is(v.get(i + 2), "EXEC.LOOP") => {
                 out.push(ExecLoop(*n, blk(v.get(i + 3)?)?));
